@@ -27,6 +27,7 @@ Format (line oriented; '@' directives start in column 0):
   @endfn
 """
 import re
+import os
 
 
 class SpecError(Exception):
@@ -160,6 +161,14 @@ def parse(path, include_dir):
                 else:
                     getattr(u, d[1:]).extend(block)
                 continue
+            if d == '@import':
+                p = rest.split(None, 1)
+                other = parse(os.path.join(os.path.dirname(path), p[0] + '.vspec'), include_dir)
+                hit = [f for f in other.fns() if f.address.strip() == p[1].strip()]
+                if not hit:
+                    raise SpecError('%s:%d @import: %s not found in unit %s' % (path, i, p[1], p[0]))
+                u.items.append(('fn', hit[0]))
+                continue
             if d == '@lemma':
                 p = rest.split()
                 block = []
@@ -205,6 +214,13 @@ def parse(path, include_dir):
                 cur_list = None
                 cur_loop = None
                 flush_insert()
+                continue
+            if d == '@rewrite_re':
+                m = re.match(r'^' + BT + r'\s*=>\s*' + BT + r'$', rest)
+                if not m:
+                    raise SpecError('%s:%d bad @rewrite_re' % (path, i))
+                tgt = cur_fn.rewrites if cur_fn else u.rewrites
+                tgt.append((m.group(1), m.group(2), 're'))
                 continue
             if d == '@rewrite':
                 m = re.match(r'^' + BT + r'\s*=>\s*' + BT + r'(\s+all)?$', rest)
